@@ -830,10 +830,19 @@ func generateMapKey(groupColumns []interface{}) (string, error) {
 	}
 
 	for _, v := range groupColumns {
+		if v == nil {
+			// NULL is no value: it must not share a key with the string 'NULL'
+			bk = append(bk, 'N')
+			bk = append(bk, separatorBuf...)
+			continue
+		}
 		b, err := formatValue(v)
 		if err != nil {
 			return "", err
 		}
+		// the length in front keeps ('a+','b') and ('a','+b') apart
+		bk = strconv.AppendInt(bk, int64(len(b)), 10)
+		bk = append(bk, ':')
 		bk = append(bk, b...)
 		bk = append(bk, separatorBuf...)
 	}
